@@ -260,13 +260,17 @@ def minimize(ne, styles, args, pos):
             make_files(ne.dir, [''.join('x' if ch in '*?' else ch for ch in x) for x in av if any(ch in '*?' for ch in x)])
             ne.cache[k] = concrete_check(ne.nat, ln, [''.join(x) for x in av], pos)
         return ne.cache[k]
+    def kind_of(lb):
+        if lb is None: return None
+        return 'argv' if lb.startswith(('argv', 'argc')) else lb
     label = bad(args)
     if label is None: return None, [''.join(a) for a in args], None
+    k0 = kind_of(label)
     for i in range(len(args)):
         for j in range(len(args[i])):
             if args[i][j] == 'a': continue
             old = args[i][j]; args[i][j] = 'a'
-            if bad(args) is None: args[i][j] = old
+            if kind_of(bad(args)) != k0: args[i][j] = old     # keep the failure mode, not just "some failure"
     label = bad(args)
     kind = 'argv' if label.startswith(('argv', 'argc')) else label
     parts = []
